@@ -131,6 +131,10 @@ func dereferenceJSONPointer(s *Schema, sptr string) (_ *Schema, err error) {
 		}
 	}
 	if s, ok := v.Interface().(*Schema); ok {
+		if s == nil {
+			// The last segment names a schema-valued keyword that is not present.
+			return nil, errors.New("refers to a keyword that is absent")
+		}
 		return s, nil
 	}
 	return nil, fmt.Errorf("does not refer to a schema, but to a %s", v.Type())
